@@ -142,9 +142,9 @@ def cli_lane(pid, tier, seed, agg, meta, profiles=("debug", "release")):
     pairs.append(("{\"cat\":[{\"var\":\"\"}]}", deep(128))); classes.append("at-limit")
     pairs.append(("{\"cat\":[{\"var\":\"\"}]}", deep(127))); classes.append("at-limit")
     oracle = libcall(jlmon, pairs)
-    t0 = time.time()
     for profile in profiles:
         binary = O.build_cli(profile)
+        t0 = time.time()
         jobs = []
         for i, (r, d) in enumerate(pairs):
             if len(r.encode("utf8")) > ARG_MAX_ONE or "\x00" in r:
@@ -153,6 +153,9 @@ def cli_lane(pid, tier, seed, agg, meta, profiles=("debug", "release")):
             if len(d.encode("utf8")) > ARG_MAX_ONE or "\x00" in d:
                 forms = ["stdin", "dash"]
             if tier == "quick" and classes[i] == "random":
+                forms = [forms[(i + seed) % len(forms)]]
+            if pid == "C01" and classes[i] in ("matrix", "random", "random-literal", "deep"):
+                # the supply form matters to C18; for totality one form per input is enough
                 forms = [forms[(i + seed) % len(forms)]]
             for f in forms:
                 jobs.append((i, f))
@@ -387,6 +390,12 @@ def py_lane(pid, tier, seed, agg, meta, profiles=("debug", "release")):
                 else:
                     raise O.Inconclusive("python child failed (harness): rc=%s %s" % (p.returncode, err.decode("utf8", "replace")[-800:]))
         for r in reports:
+            if pid == "C01":
+                # C01 judges only "an ordinary exception instead of a crash": SystemError (a Rust panic
+                # caught by the binding), MemoryError / RecursionError or a dead interpreter
+                r["violations"] = [v for v in r.get("violations", []) if v["monitor"] == "c01.python"]
+                n = r.get("evaluations", 0)
+                r["monitors"] = {"c01.python": {"observed": n, "judged": n, "unjudged": 0, "violations": len(r["violations"])}}
             for v in r.get("violations", []):
                 v["lane"] = "py-" + profile
                 v["direct"] = False
